@@ -27,7 +27,7 @@ OBSERVER = {'C17': 'Trace_Recent'}
 
 # deviations of the tree as it is now (kept in step with known/*.json: a fixed
 # defect is removed here, so the model then predicts the repaired behaviour)
-ASIS_DEVS = ['CloseRONo', 'MoveIgnoresRO']
+ASIS_DEVS = []
 
 
 def rand_set(rng, uidmode: bool, nmax: int = 5) -> str:
